@@ -51,7 +51,12 @@ func c16Oracle(p *Plan) *Verdict {
 		v.violate("rounds-incomplete", facts, "only %d of %d rounds completed; outcome %s", st.ClientRounds, rounds, outcomeBrief(st.Outcome))
 		return v
 	}
-	if st.Outcome == nil || !st.Outcome.sawSuccess() || len(st.Outcome.Msgs) != rounds {
+	wantMsgs := rounds
+	if rc.Backend.ServerFirst {
+		wantMsgs++
+		v.probe("handler-speaks-first")
+	}
+	if st.Outcome == nil || !st.Outcome.sawSuccess() || len(st.Outcome.Msgs) != wantMsgs {
 		v.violate("ping-pong-outcome", facts, "all %d rounds completed but the outcome is %s", rounds, outcomeBrief(st.Outcome))
 	}
 	// bounded liveness as a measured number: scheduler steps per round and per byte moved (the step cap is the hard bound)
@@ -78,7 +83,7 @@ func init() {
 		ID:    "C16",
 		Level: "exploration",
 		Rule: "strict ping-pong on the bidirectional method: the simulated client delivers request k+1 only after it has parsed response k out of the bytes the response writer made visible (visible = flushed), " +
-			"the scripted handler writes response k only after it has read request k completely (reading and writing on one goroutine, or on two as reverse proxies do); 1..50 rounds (thorough up to 500), payloads 0..64 KiB, gRPC / gRPC-Web / Connect-streaming clients x streaming targets x " +
+			"the scripted handler writes response k only after it has read request k completely (in three runs of ten the handler speaks first: it sends a message before reading anything and the client sends nothing before that message arrived; reading and writing on one goroutine, or on two as reverse proxies do); 1..50 rounds (thorough up to 500), payloads 0..64 KiB, gRPC / gRPC-Web / Connect-streaming clients x streaming targets x " +
 			"same/different codec and compression, handler calling Flush itself or never, five flavours of the server's response writer (Flusher, FlushError only, wrapped with Unwrap, buffering middleware with Flush and Unwrap), all scheduling policies and read/delivery segmentations; oracle: all rounds complete and the outcome is OK; quiescence with parked tasks is a deadlock. " +
 			"distinct = (form>target/request path/response path/flush mode/round bucket, schedule hash); non-trivial = the transcoder is in the data path",
 		Gen: func(c *Chooser, tier string) *Plan {
@@ -111,6 +116,12 @@ func init() {
 			rp.TrailerStyle = Pick(c, "announce", "prefix")
 			rp.FlushEvery = Pick(c, 0, 1)
 			bp := BackendPlan{Mode: "pingpong", ReadSizes: genSegSizes(c), Resp: rp, SplitReader: c.Prob(0.4)}
+			if c.Prob(0.3) {
+				// the conversation starts with the handler: it sends a message before reading anything, and the client waits
+				// for it before sending its first (nothing may wait for a request message that has not been asked for yet)
+				bp.ServerFirst = true
+				bp.Resp.Msgs = append(bp.Resp.Msgs, MsgSpec{Data: canonBytes(genMessage(c, md.Output(), mo, 0)), Compressed: c.Prob(0.6)})
+			}
 			if big {
 				for i := range bp.ReadSizes {
 					bp.ReadSizes[i] *= 256
